@@ -292,7 +292,7 @@ func init() {
 	})
 
 	register(&Rule{
-		ID: "C09.R4", Props: []string{"C09"}, Min: 3,
+		ID: "C09.R4", Props: []string{"C09", "C10"}, Min: 3,
 		Doc: "no unsynchronised write to shared engine state inside the cone of the concurrent entry points: every store to a package-level variable or to a field (or map held in a field) of Vue/ExprEvaluator/Loader — and every call outside the module that is handed the address of a struct embedded in such an object (a pointer-receiver method of a stateful helper, e.g. a reused expr VM) — happens with a sibling mutex held in write mode, inside sync.Once.Do, or on a freshly allocated object",
 		Run: func(p *Prog, c *Ctx) {
 			cone := p.Cone(p.concurrentEntries()...)
